@@ -282,11 +282,37 @@ def gen_raster(tier, seed_):
     return specs
 
 
+class RenderTimeout(Exception):
+    pass
+
+
+_TIMEOUTS = [0]
+
+
+def _render_alarm(signum, frame):
+    _TIMEOUTS[0] += 1
+    raise RenderTimeout('no document within the time limit (60 s; 3 s after three time-outs in the same worker process)')
+
+
+def _limited(a):
+    """one observation under a time limit: a serialiser that does not come back is an outcome of that call (reported like any other
+    unexpected exception), not a check that never ends"""
+    import signal
+    fn, spec = a
+    old = signal.signal(signal.SIGALRM, _render_alarm)
+    signal.alarm(60 if _TIMEOUTS[0] < 3 else 3)
+    try:
+        return fn(spec)
+    finally:
+        signal.alarm(0)
+        signal.signal(signal.SIGALRM, old)
+
+
 def run_pool(fn, specs):
     if len(specs) < 8:
-        return [fn(s) for s in specs]
+        return [_limited((fn, s)) for s in specs]
     with mp.get_context('fork').Pool(common.NCPU) as pool:
-        return pool.map(fn, specs, chunksize=max(1, len(specs) // 256))
+        return pool.map(_limited, [(fn, s) for s in specs], chunksize=max(1, len(specs) // 256))
 
 
 def run_session(fn, specs):
@@ -295,7 +321,7 @@ def run_session(fn, specs):
     if not specs:
         return []
     with mp.get_context('fork').Pool(1) as pool:
-        return pool.map(fn, specs, chunksize=len(specs))
+        return pool.map(_limited, [(fn, s) for s in specs], chunksize=len(specs))
 
 
 def brief_spec(s):
